@@ -10,7 +10,7 @@ Import ListNotations.
 
 Definition run (t : Tree) : Tree :=
   let st := tState (tnth t 0) in
-  let later := L (map (fun t2 => match write_state t2 (tLZ (tnth t 1)) (tLZ (tnth t 2)) with
+  let later := L (map (fun e => match write_state (tnth e 0) (tLZ (tnth e 1)) (tLZ (tnth e 2)) with
                                   | ROk f2 => L [eResult eH5 (ROk f2); eOpt (fun m => L (map eBigs m)) (spec_decode_csr f2);
                                                  eOpt (fun m => L (map eBigs m)) (spec_decode_csc f2)]
                                   | RErr e => L [eErr e; L []; L []]
